@@ -74,7 +74,8 @@ def run_menu_scenario(p, wd):
 
     def payload(lv, b, lo, hi, X, Y, Z, c):
         r = np.random.default_rng(p["seed"] * 31 + lv * 7 + b * 3 + c)
-        return (-1.0) ** c * (c + 1.0) * 10.0 ** (c - 2) * (1 + r.uniform(0, 1, size=X.shape))
+        # (the scale depends on the scenario: two plotfiles written to one path have visibly different extrema)
+        return (-1.0) ** c * (c + 1.0) * 10.0 ** (c - 2) * (1 + r.uniform(0, 1, size=X.shape)) * (1.0 + (p["seed"] % 17) * 0.37)
     pp = dict(p)
     pp["nf"] = len(names)
     pf, path = make_input(pp, wd, names=names, payload=payload, specials=False)
